@@ -261,7 +261,7 @@ class Unit:
         if "R1" in enabled:
             t, n = R.r1_strip_attrs_comments(t, keep)
             self._count("R1", n)
-        for r in ("R2", "R5", "R4", "R6", "R16", "R17", "R17b", "R3", "R10", "R15", "R18", "R18b", "R20"):
+        for r in ("R2", "R5", "R4", "R6", "R16", "R17", "R17b", "R22", "R3", "R10", "R15", "R18", "R18b", "R20"):
             if r in enabled or (r == "R17b" and "R17" in enabled):
                 t, n = R.RULES[r](t)
                 self._count(r, n)
@@ -272,6 +272,10 @@ class Unit:
         if exprs:
             t, n = R.r11_map_ref_iter(t, exprs)
             self._count("R11", n)
+        exprs = it.opts.get("hashmap_into_iter", [])
+        if exprs:
+            t, n = R.r23_hashmap_into_iter(t, exprs)
+            self._count("R23", n)
         aw = it.opts.get("await_erase", self.cfg.get("await_erase"))
         if aw:
             t, n = R.r9_await_erasure(t, aw)
@@ -394,6 +398,9 @@ class Unit:
                 inserts.append((kw_pos, "loop", lc, (kw_pos, kw, bo)))
                 if "after" in lc.raw:
                     inserts.append((L.match_close(m, bo) + 1, "entry", lc.raw["after"], None))
+                if "before_body_end" in lc.raw:
+                    # structural position: end of the loop body (just before its closing brace)
+                    inserts.append((L.match_close(m, bo), "entry", lc.raw["before_body_end"], None))
             closures = L.find_closures(m, 1, len(m) - 1)
             for k, cc in c.closures.items():
                 if k > len(closures):
